@@ -108,7 +108,7 @@ func TestC09(t *testing.T) {
 
 	// Failover: callers overwrite the key buffer right after Get returns while background builds are in flight
 	for i := 0; i < e.Pick(150, 1500); i++ {
-		out := GenFailover(t, e.Rng, FOpts{MinGets: 1, MaxGets: 4, Keys: 2, FailRate: 0.2, Hostile: true,
+		out := GenFailover(t, e.Rng, FOpts{MinGets: 1, MaxGets: 4, Keys: 2, FailRate: 0.2, Hostile: true, Collide: true,
 			InitStates: []string{"stale", "stale", "absent", "toostale"}})
 		cf.Add("C09F ("+out.Term+")", "failover/"+out.Tag, out.Replay, out.Nontriv)
 	}
